@@ -409,6 +409,10 @@ pub fn check_case(c: &Case) -> CaseResult {
     let out_map = Arc::new(Mutex::new(vec![]));
     let types_map = Arc::new(Mutex::new(vec![]));
     m.customs.add(Spy { live: live.clone(), out: out_map.clone(), types_out: types_map.clone() });
+    // a second consumer of the map: every custom section must see the same, complete map
+    let out_map2 = Arc::new(Mutex::new(vec![]));
+    let types_map2 = Arc::new(Mutex::new(vec![]));
+    m.customs.add(Spy { live: live.clone(), out: out_map2.clone(), types_out: types_map2.clone() });
     let out = match emit(&mut m) {
         Ok(o) => o,
         Err(f) => {
@@ -436,6 +440,9 @@ pub fn check_case(c: &Case) -> CaseResult {
         }
     };
     r.nontrivial = maps.renumbered();
+    if *out_map.lock().unwrap() != *out_map2.lock().unwrap() || *types_map.lock().unwrap() != *types_map2.lock().unwrap() {
+        r.violations.push(Violation::new("C19", "emit-map:sections-see-different-maps", "two custom sections asked the same questions while serialising and got different answers".to_string(), c));
+    }
     for (s, i, j) in out_map.lock().unwrap().iter() {
         let want = maps.f(*s, *i as u32);
         if want != Some(*j) {
